@@ -66,6 +66,17 @@ def cases(tier):
         for m in EK.big_models(fs, tier):
             for route in ('cls', 'proc', 'cfg', 'potable'):
                 out.append(dict(m=m, route=route, target='DL_POLY_EAM_fs' if fs else 'DL_POLY_EAM'))
+    for fs in (False, True):
+        for m in EK.big_grid_models(fs):
+            for route in (('cls', 'potable') if tier == 'quick' else ('cls', 'proc', 'cfg', 'potable')):
+                out.append(dict(m=m, route=route, target='DL_POLY_EAM_fs' if fs else 'DL_POLY_EAM', big=True))
+    # Python API with density dictionaries holding more species than are tabulated (objects re-used from a larger system)
+    for els in (['Al'], ['Cu', 'Al'], ['Fe', 'Al', 'Cu']):
+        for extra in (['Ni'], ['Ni', 'Ag']):
+            allp = ['%s->%s' % (a, b) for a in els for b in els]
+            m = dict(fs=True, embed=list(els), dens=allp, pairs=[[els[0], els[-1]]], species='builtin', nr=4, cutoff=2.5, nrho=3, cutoff_rho=50.0, extra_dict_species=extra)
+            for route in ('cls', 'proc'):
+                out.append(dict(m=m, route=route, target='DL_POLY_EAM_fs'))
     # grid sweep: 2-element model on a (cutoff, n) lattice -- float-awkward steps
     cut = [c / 10.0 for c in range(1, 151, 1 if tier != 'quick' else 7)] + [9.99, 0.05]
     ns = [2, 3, 4, 5, 6, 7, 8, 9, 13, 100, 101, 1001] if tier == 'quick' else list(range(2, 40)) + [100, 101, 500, 1000, 1001, 2001]
